@@ -253,6 +253,9 @@ def rewrite(ot, drops, where, extra=None):
     o = ot.o[pos] if pos < len(ot.o) else 0
     return "%s:%s" % (where, o if o > 0 else "?")
 
+  # declared substitutions marked "pre" run before the general rules (e.g. `"lit".into()` that must stay a &'static str)
+  _apply_extras(ot, drops, where, [e for e in (extra or []) if len(e) > 4 and e[4] == "pre"], loc)
+  extra = [e for e in (extra or []) if not (len(e) > 4 and e[4] == "pre")]
   # R1: logging macros as statements
   while True:
     mask = ot.mask()
@@ -348,6 +351,10 @@ def rewrite(ot, drops, where, extra=None):
       drops.append({"rule": "R3", "at": loc(m.start()), "what": what})
       ot.replace(m.start(), m.end(), new)
   # declared per-unit literal substitutions (R6/R8): (rule, old, new[, count])
+  _apply_extras(ot, drops, where, extra, loc)
+
+
+def _apply_extras(ot, drops, where, extra, loc):
   for ex in extra or []:
     rule, old, new = ex[0], ex[1], ex[2]
     want = ex[3] if len(ex) > 3 else None
@@ -369,11 +376,11 @@ def rewrite(ot, drops, where, extra=None):
         if not m:
           break
         rep = m.expand(new)
-        drops.append({"rule": rule, "at": loc(m.start()), "what": "%s -> %s" % (m.group(0).strip(), rep.strip())})
+        drops.append({"rule": rule, "at": loc(m.start()), "what": "%s -> %s" % (" ".join(m.group(0).split()), " ".join(rep.split()))})
         ot.replace(m.start(), m.end(), rep)
         pos = m.start() + max(len(rep), 1)
         cnt += 1
-    if want is not None and cnt != want and not (want == "+" and cnt >= 1):
+    if want is not None and cnt != want and not (want == "+" and cnt >= 1) and not (want == "*"):
       # the text this rewrite was declared for has been edited: go on without it (Verus then sees the edited text as it is;
       # if that is outside its subset the unit ends undecided, otherwise the contracts decide) -- never abort here
       drops.append({"rule": rule, "at": where, "what": "ANCHOR LOST: declared rewrite %r applied %d times (expected %s)" % (old if isinstance(old, str) else old.pattern, cnt, want)})
@@ -436,6 +443,15 @@ class Item:
     self.file, self.kind, self.name, self.within = file, kind, name, within
     self.extra = list(extra)
     self.keep_derive = keep_derive
+
+
+class Scan:
+  """syntactic frame check: inside fn `name` the regex `pattern` occurs exactly `expect` times (all of them inside the regions /
+  rewrites declared for that function).  A different count means the function touches the scanned state somewhere the unit
+  does not cover: the unit is then undecided (anchor lost), never silently green."""
+
+  def __init__(self, file, name, pattern, expect, impl=None, why=""):
+    self.file, self.name, self.pattern, self.expect, self.impl, self.why = file, name, pattern, expect, impl, why
 
 
 class Raw:
@@ -706,6 +722,22 @@ def extract_fn(gen, f, probe=False):
       cl = match_close(mask, brace)
       add_op(cl + 1, cl + 1, " }", o0)
       continue
+    if kw == "loop" and spec.get("break_value"):
+      # R10: `let NAME = loop { .. break EXPR; .. };`  ==>  `let mut vx_bN = None; loop { .. { vx_bN = Some(EXPR); break; } .. } let NAME = vx_bN.unwrap();`
+      # (Verus has no break-with-value; unwrap() carries the obligation that the loop is only left through such a break)
+      pre = re.search(r"let\s+([A-Za-z_][A-Za-z0-9_]*)\s*=\s*$", body.s[:st])
+      cl = match_close(mask, brace)
+      post = re.match(r"\s*;", body.s[cl + 1:])
+      if not pre or not post:
+        raise VxError("loop #%d of %s::%s is not of the form `let x = loop { .. };`: anchor lost" % (ordn, f.file, f.name))
+      o0 = body.o[st]
+      gen.drops.append({"rule": "R10", "at": "%s:%s" % (where, o0), "what": "let %s = loop { .. break EXPR; .. } -> Option-valued local vx_b%d set before a plain break, unwrap() after the loop" % (pre.group(1), ordn)})
+      add_op(pre.start(), st, "let mut vx_b%d = None;\n" % ordn, o0)
+      for bm in re.finditer(r"\bbreak\s+([^;]+);", mask[brace:cl]):
+        a, b = brace + bm.start(), brace + bm.end()
+        add_op(a, b, "{ vx_b%d = Some(%s); break; }" % (ordn, body.s[brace + bm.start(1):brace + bm.end(1)]), body.o[a])
+      add_op(cl + 1, cl + 1 + post.end(), "\n let %s = vx_b%d.unwrap();" % (pre.group(1), ordn), o0)
+      ins.append(("\n      ensures\n        vx_b%d is Some,\n" % ordn, gen.tag({"kind": "kw", "fn": qual}))) if not spec.get("ensures") else ins.append(("        vx_b%d is Some,\n" % ordn, gen.tag({"kind": "kw", "fn": qual})))
     for text, t in ins:
       add_op(brace, brace, text, t)
     if kw == "for" and (spec.get("ghost_iter") or spec.get("iter_sub")):
@@ -876,6 +908,14 @@ def generate(unit, probe=False):
           if m:
             nm = ("+".join(part.props) + ":" if part.props else "") + "lemma." + m.group(1)
             gen.lemmas.append({"name": nm, "fn": m.group(1), "start": i + 1, "src": part.label})
+    elif isinstance(part, Scan):
+      src = Src.get(part.file)
+      within = src.find_block(part.impl) if part.impl else None
+      ls, bo, bc = src.find_fn(part.name, within, 0)
+      n = len([m for m in re.finditer(part.pattern, src.text[bo:bc]) if src.mask[bo + m.start()] == src.text[bo + m.start()]])
+      if n != part.expect:
+        raise VxError("anchor lost: fn %s of %s mentions /%s/ %d times, the unit covers %d (%s)" % (part.name, part.file, part.pattern, n, part.expect, part.why))
+      gen.drops.append({"rule": "SCAN", "at": "%s:%d" % (part.file, src.line_of(ls)), "what": "fn %s mentions /%s/ exactly %d times: %s" % (part.name, part.pattern, n, part.why)})
     elif isinstance(part, Item):
       ot = extract_item(gen, part)
       if part.kind in ("struct", "enum") and part.keep_derive:
